@@ -304,3 +304,22 @@ class DirectiveModel(object):
 
     def state(self):
         return (self.skip, frozenset(self.req))
+
+
+# --------------------------------------------------------------------------
+# the text the interpreter prints for an exception below the traceback
+# --------------------------------------------------------------------------
+
+def exception_text(ex):
+    """message line followed by the lines of attached notes (PEP 678); for a SyntaxError the source context
+    lines in front of the message are left out - what the standard doctest module compares an expected
+    traceback with"""
+    import traceback
+    lines = traceback.format_exception_only(type(ex), ex)
+    if isinstance(ex, SyntaxError):
+        name = type(ex).__qualname__
+        for i, ln in enumerate(lines):
+            if ln.startswith(name + ':') or ln.rstrip() == name:
+                lines = lines[i:]
+                break
+    return ''.join(lines).rstrip('\n')
